@@ -60,6 +60,107 @@ func atomCriteria(set int, name string) graph.Criteria {
 	}
 }
 
+// relAtomCriteria: atoms over a relationship pattern (s)-[r]->(e); the relationship kind tests are what the Neo4j query
+// builder moves from the WHERE clause into the pattern.
+func relAtomCriteria(set int, name string) graph.Criteria {
+	if set%2 == 0 {
+		switch name {
+		case "a":
+			return query.Equals(query.StartProperty("a"), 1)
+		case "b":
+			return query.Kind(query.Start(), graph.StringKind("Kb"))
+		default:
+			return query.Kind(query.Relationship(), graph.StringKind("Kc"))
+		}
+	}
+	switch name {
+	case "a":
+		return query.Kind(query.Relationship(), graph.StringKind("Ka"))
+	case "b":
+		return query.Equals(query.EndProperty("b"), 2)
+	default:
+		return query.Kind(query.Relationship(), graph.StringKind("Kc"))
+	}
+}
+
+// buildWith builds a term from atoms given by atom; bare = with the cypher model constructors directly (no
+// Parenthetical anywhere) instead of the package query combinators.
+func buildWith(t Term, bare bool, atom func(name string) graph.Criteria) graph.Criteria {
+	switch t.B {
+	case "atom":
+		return atom(t.V)
+	case "not":
+		if bare {
+			return cypher.NewNegation(buildWith(*t.X, bare, atom))
+		}
+		return query.Not(buildWith(*t.X, bare, atom))
+	}
+	var xs []graph.Criteria
+	var es []cypher.Expression
+	for _, x := range t.Xs {
+		c := buildWith(x, bare, atom)
+		xs = append(xs, c)
+		es = append(es, c)
+	}
+	switch t.B {
+	case "and":
+		if bare {
+			return cypher.NewConjunction(es...)
+		}
+		return query.And(xs...)
+	case "or":
+		if bare {
+			return cypher.NewDisjunction(es...)
+		}
+		return query.Or(xs...)
+	case "xor":
+		if bare {
+			return cypher.NewExclusiveDisjunction(es...)
+		}
+		return query.Xor(xs...)
+	}
+	tr.Fatal("bad term %q", t.B)
+	return nil
+}
+
+// parsedMeaning: the question a parsed single-match query asks - the kinds written into its first relationship
+// pattern (any-of) conjoined with its WHERE expression.
+func parsedMeaning(q *cypher.RegularQuery) (Tree, bool) {
+	if q == nil || q.SingleQuery == nil || q.SingleQuery.SinglePartQuery == nil {
+		return Tree{}, false
+	}
+	for _, rc := range q.SingleQuery.SinglePartQuery.ReadingClauses {
+		if rc.Match == nil {
+			continue
+		}
+		var parts []Tree
+		if rel := rc.Match.FirstRelationshipPattern(); rel != nil && len(rel.Kinds) > 0 {
+			var ks []Tree
+			for _, k := range rel.Kinds {
+				ks = append(ks, Tree{K: "atom", V: strings.ToLower(strings.TrimPrefix(k.String(), "K"))})
+			}
+			if len(ks) == 1 {
+				parts = append(parts, ks[0])
+			} else {
+				parts = append(parts, Tree{K: "or", Xs: ks})
+			}
+		}
+		if rc.Match.Where != nil {
+			for _, e := range rc.Match.Where.Expressions {
+				parts = append(parts, treeOf(e))
+			}
+		}
+		switch len(parts) {
+		case 0:
+			return Tree{}, false
+		case 1:
+			return parts[0], true
+		}
+		return Tree{K: "and", Xs: parts}, true
+	}
+	return Tree{}, false
+}
+
 func buildTerm(set int, t Term) graph.Criteria {
 	switch t.B {
 	case "atom":
@@ -160,11 +261,12 @@ func Build(args []string) {
 	seed := fs.Int("seed", 1, "")
 	fs.Parse(args)
 	w := tr.Create(*outp)
+	paths := []string{"emitter", "neo4j", "bare", "neo4j-reuse", "neo4j-rel", "neo4j-rel-reuse"}
 	for hid, t := range tr.ReadLines[Term](*in) {
-		set := hid + *seed
-		for _, path := range []string{"emitter", "neo4j"} {
-			set := set
-			if path == "neo4j" {
+		for pi, path := range paths {
+			set := hid + *seed
+			rel := strings.HasPrefix(path, "neo4j-rel")
+			if strings.HasPrefix(path, "neo4j") && !rel {
 				// the Neo4j builder deliberately rewrites negated string predicates (adds "or x is null"); that rewrite is
 				// not under test here, so this path uses the atom sets without string predicates
 				set = (set % 2) + 3*(set/3)
@@ -172,8 +274,15 @@ func Build(args []string) {
 					set--
 				}
 			}
-			ev := map[string]any{"e": "c10", "hid": hid*2 + map[string]int{"emitter": 0, "neo4j": 1}[path], "path": path, "term": t,
-				"atoms": map[string]string{"a": idOf(set, "a"), "b": idOf(set, "b"), "c": idOf(set, "c")}, "panic": false, "reparse_ok": false,
+			atom := func(name string) graph.Criteria { return atomCriteria(set, name) }
+			if rel {
+				atom = func(name string) graph.Criteria { return relAtomCriteria(set, name) }
+			}
+			id := func(name string) string { return atomID(atom(name).(cypher.Expression)) }
+			// sem_only: the builder moved relationship kind tests into the pattern, so the operator tree is compared by
+			// what it means (truth table over the atoms), not by shape
+			ev := map[string]any{"e": "c10", "hid": hid*8 + pi, "path": path, "term": t, "sem_only": rel,
+				"atoms": map[string]string{"a": id("a"), "b": id("b"), "c": id("c")}, "panic": false, "reparse_ok": false,
 				"parsed": Tree{K: "atom", V: "?"}, "text": ""}
 			func() {
 				defer func() {
@@ -182,10 +291,10 @@ func Build(args []string) {
 						ev["panicmsg"] = fmt.Sprint(r)
 					}
 				}()
-				crit := buildTerm(set, t)
+				crit := buildWith(t, path == "bare", atom)
 				var text string
 				var err error
-				if path == "emitter" {
+				if path == "emitter" || path == "bare" {
 					// a model with a match pattern, as any backend prepares it, whose WHERE is the built criteria
 					base, berr := frontend.ParseCypher(frontend.NewContext(), "match (n) where n.z = 0 return n")
 					if berr != nil {
@@ -197,11 +306,23 @@ func Build(args []string) {
 						text, err = emitText(base)
 					}
 				} else {
-					qb := queryNeo4j.NewEmptyQueryBuilder()
-					qb.Apply(query.Where(crit))
-					qb.Apply(query.Returning(query.Node()))
-					if err = qb.Prepare(); err == nil {
-						text, err = qb.Render()
+					render := func() (string, error) {
+						qb := queryNeo4j.NewEmptyQueryBuilder()
+						qb.Apply(query.Where(crit))
+						if rel {
+							qb.Apply(query.Returning(query.Relationship()))
+						} else {
+							qb.Apply(query.Returning(query.Node()))
+						}
+						if err := qb.Prepare(); err != nil {
+							return "", err
+						}
+						return qb.Render()
+					}
+					text, err = render()
+					if err == nil && strings.HasSuffix(path, "-reuse") {
+						// the same criteria value given to a second builder (a count query, then the fetch query)
+						text, err = render()
 					}
 				}
 				ev["text"] = text
@@ -214,7 +335,12 @@ func Build(args []string) {
 					ev["err"] = perr.Error()
 					return
 				}
-				if wexpr, ok := whereOf(parsed); ok {
+				if rel {
+					if m, ok := parsedMeaning(parsed); ok {
+						ev["reparse_ok"] = true
+						ev["parsed"] = m
+					}
+				} else if wexpr, ok := whereOf(parsed); ok {
 					ev["reparse_ok"] = true
 					ev["parsed"] = treeOf(wexpr)
 				}
